@@ -55,18 +55,14 @@ def _marker_blocks(ctx):
     if len(blocks) != 1:
         raise AnalysisError("_parse_meaningful: `block = txt[...]` not found")
     b = blocks[0]
-    ctx.check(norm(b.value) == 'txt[marker_pos:next_marker_pos]', 'SINK',
-              'a block is the text between a marker and the next marker',
-              detail_bad=f"block is `{norm(b.value)}`", key="SINK|_parse_meaningful|slice")
+    ctx.shape(norm(b.value) == 'txt[marker_pos:next_marker_pos]', 'SINK',
+              'a block is the text between a marker and the next marker')
     t = ' '.join(norm(s) for s in ast.walk(loop) if isinstance(s, ast.stmt))
-    ctx.check('next_marker_pos = self.markers_list[min((final, count + 1))]' in t
+    ctx.shape('next_marker_pos = self.markers_list[min((final, count + 1))]' in t
               and 'final = len(self.markers_list) - 1' in ' '.join(norm(s) for s in fi.node.body), 'SINK',
-              'the next marker is the adjacent one (no marker is skipped)',
-              detail_bad="next-marker computation changed", key="SINK|_parse_meaningful|adjacent")
-    ctx.check('if marker_type in [TEXT_START, TWPRGE_END, SEC_END]' in t, 'SINK',
-              'text after TEXT_START, after a Twp/Rge and after a section is cut into blocks',
-              detail_bad="the set of block-opening markers changed: text after one kind of marker is never looked at",
-              key="SINK|_parse_meaningful|openers")
+              'the next marker is the adjacent one (no marker is skipped)')
+    ctx.shape('if marker_type in [TEXT_START, TWPRGE_END, SEC_END]' in t, 'SINK',
+              'text after TEXT_START, after a Twp/Rge and after a section is cut into blocks')
     # sinks
     sinks = []
     for st in ast.walk(loop):
@@ -91,30 +87,28 @@ def _marker_blocks(ctx):
               key="SINK|_parse_meaningful|allpaths", where=common.loc(fi, b))
     pnt = ctx.repo.func('ChunkParser._parse_meaningful.prep_new_tract')
     t = [norm(s) for s in pnt.node.body]
-    ctx.check('desc = cleanup_desc(desc)' in t and 'self._stage_new_tract(desc, self.working_sec, self.working_twprge)' in t,
-              'SINK', 'prep_new_tract stages the (cleaned) block as the description',
-              detail_bad="prep_new_tract changed", key="SINK|prep_new_tract")
+    ctx.shape('desc = cleanup_desc(desc)' in t and 'self._stage_new_tract(desc, self.working_sec, self.working_twprge)' in t,
+              'SINK', 'prep_new_tract stages the (cleaned) block as the description')
 
 
 def _unused_flow(ctx):
     safe = ctx.repo.func('ChunkParser.parse_safe')
     t = [norm(s) for s in walk_local(safe.node) if isinstance(s, ast.stmt)]
-    ctx.check('parent.unused_components.extend(self.unused_components)' in t, 'SINK',
-              "each chunk's unused blocks are handed to the PLSSParser", detail_bad="unused hand-off gone",
-              key="SINK|parse_safe|unused")
+    ctx.shape('parent.unused_components.extend(self.unused_components)' in t, 'SINK',
+              "each chunk's unused blocks are handed to the PLSSParser")
     pp = ctx.repo.func('PLSSParser.parse')
     cfg, _ = flow.analyse(pp.node)
     t = ' '.join(norm(s) for s in walk_local(pp.node) if isinstance(s, ast.stmt))
-    ctx.check('self.unused_components.extend(chunker.unused_blocks)' in t, 'SINK',
-              "the chunker's leading/trailing text is kept as unused", detail_bad="chunker unused text dropped",
-              key="SINK|PLSSParser.parse|chunker-unused")
+    ctx.shape('self.unused_components.extend(chunker.unused_blocks)' in t, 'SINK',
+              "the chunker's leading/trailing text is kept as unused")
     ex = [s for s in pp.node.body if isinstance(s, ast.Expr) and isinstance(s.value, ast.Call)
           and dotted(s.value.func) == 'examine_unused']
     chunks = [n for n in pp.node.body if isinstance(n, ast.For) and norm(n.iter) == 'self.blocks']
     ok = len(ex) == 1 and len(chunks) == 1 and cfg.precedes_always(chunks[0], ex[0]) \
         and cfg.must_pass(cfg.entry, [cfg.node_of(ex[0])])
-    ctx.check(ok, 'SINK', 'after all chunks are parsed every path examines the unused blocks',
-              detail_bad="examine_unused() is not on every path after the chunk loop", key="SINK|PLSSParser.parse|examine")
+    ctx.tri(ok, len(ex) == 1 and len(chunks) == 1 and not cfg.must_pass(cfg.entry, [cfg.node_of(ex[0])]), 'SINK',
+            'after all chunks are parsed every path examines the unused blocks',
+            detail_bad="examine_unused() is not on every path through parse()", key="SINK|PLSSParser.parse|examine")
     eu = ctx.repo.func('PLSSParser.parse.examine_unused')
     loops = [n for n in eu.node.body if isinstance(n, ast.For) and norm(n.iter) == 'self.unused_components']
     if len(loops) != 1:
@@ -138,16 +132,14 @@ def _unused_flow(ctx):
                       key=f"SINK|examine_unused|guard|{txt}|{val}", where=common.loc(eu, calls[0]))
     fu = ctx.repo.func('PLSSParser.parse.flag_unused')
     t = [norm(s) for s in fu.node.body]
-    ctx.check('self.e_flags.append(flag)' in t and 'self.e_flag_lines.append((flag, unused_text))' in t
-              and any('unused_desc<' in x for x in t), 'SINK', 'an unused block becomes an unused_desc<...> error flag with its text',
-              detail_bad="flag_unused changed", key="SINK|flag_unused")
+    ctx.shape('self.e_flags.append(flag)' in t and 'self.e_flag_lines.append((flag, unused_text))' in t
+              and any('unused_desc<' in x for x in t), 'SINK', 'an unused block becomes an unused_desc<...> error flag with its text')
     # unused twprge / sec
     pc = ctx.repo.func('ChunkParser.parse_chunk')
     t = ' '.join(norm(s) for s in walk_local(pc.node) if isinstance(s, ast.stmt))
-    ctx.check('for twprge in self.working_twprge_list' in t and 'unused_twprge<' in t
+    ctx.shape('for twprge in self.working_twprge_list' in t and 'unused_twprge<' in t
               and 'for seclist in self.working_sec_list' in t and 'unused_sec<' in t, 'SINK',
-              'Twp/Rges and sections that were matched but never used raise error flags',
-              detail_bad="unused Twp/Rge / section flags changed", key="SINK|parse_chunk|unused-markers")
+              'Twp/Rges and sections that were matched but never used raise error flags')
 
 
 def _chunker(ctx):
@@ -159,33 +151,41 @@ def _chunker(ctx):
         un = [c for c in walk_local(fi.node) if isinstance(c, ast.Call) and norm(c.func) == 'self.unused_blocks.append']
         bl = [n for n in walk_local(fi.node) if isinstance(n, ast.Assign) and norm(n.targets[0]) == 'new_block'
               and isinstance(n.value, ast.Subscript)]
-        if len(un) != 1 or len(bl) != 1:
-            raise AnalysisError(f"{fi.qualname}: slices not found")
+        if len(un) != 1 or len(bl) != 1 or not isinstance(un[0].args[0], ast.Tuple):
+            ctx.undecided('SINK', f"{fi.qualname}: chunk / leftover slices", 'slices not recognised')
+            continue
         usl = un[0].args[0].elts[1]
         if not isinstance(usl, ast.Subscript) or not isinstance(usl.slice, ast.Slice):
-            raise AnalysisError(f"{fi.qualname}: unused text is not a slice")
+            ctx.undecided('SINK', f"{fi.qualname}: leftover slice", 'unused text is not a slice')
+            continue
         got_u = (norm(usl.slice.lower) if usl.slice.lower else '', norm(usl.slice.upper) if usl.slice.upper else '')
         got_b = (norm(bl[0].value.slice.lower) if bl[0].value.slice.lower else '',
                  norm(bl[0].value.slice.upper) if bl[0].value.slice.upper else '')
-        ctx.check(got_b == block_want, 'SINK', f"{fi.qualname}: chunk is text[{block_want[0]}:{block_want[1]}]",
-                  detail_bad=f"chunk slice is text[{got_b[0]}:{got_b[1]}]", key=f"SINK|{fi.qualname}|block")
-        # tiling: the unused slice abuts the first/last chunk
-        ctx.check(got_u == unused_want, 'SINK',
-                  f"{fi.qualname}: text outside the chunks is text[{unused_want[0]}:{unused_want[1]}] (abuts the chunk)",
-                  f"chunks [{block_want[0]}:{block_want[1]}], rest [{unused_want[0]}:{unused_want[1]}]",
-                  f"the leftover slice is text[{got_u[0]}:{got_u[1]}]: it does not abut the chunk, so text between "
-                  f"them (or all of it) vanishes", key=f"SINK|{fi.qualname}|rest", where=common.loc(fi, un[0]))
+        ctx.shape(got_b == block_want, 'SINK', f"{fi.qualname}: chunk is text[{block_want[0]}:{block_want[1]}]")
+        # tiling: the leftover slice must abut the first/last chunk, i.e. share
+        # its inner bound with the chunk slice; positive evidence of a defect:
+        # the inner bound is the loop index / another variable than the chunk's
+        loopvars = {norm(n.target.elts[0]) for n in walk_local(fi.node) if isinstance(n, ast.For)
+                    and isinstance(n.target, ast.Tuple) and n.target.elts}
+        inner_u = got_u[1] if unused_want[1] else got_u[0]
+        inner_b = got_b[0] if unused_want[1] else got_b[1]
+        ctx.tri(got_u == unused_want, got_b == block_want and inner_u != inner_b and (inner_u in loopvars or inner_u in ('0', '')),
+                'SINK', f"{fi.qualname}: text outside the chunks is text[{unused_want[0]}:{unused_want[1]}] (abuts the chunk)",
+                f"chunks [{block_want[0]}:{block_want[1]}], rest [{unused_want[0]}:{unused_want[1]}]",
+                f"the leftover slice is text[{got_u[0]}:{got_u[1]}]: it does not abut the chunk text[{got_b[0]}:{got_b[1]}], "
+                f"so the text in between (or all of it) vanishes", key=f"SINK|{fi.qualname}|rest", where=common.loc(fi, un[0]))
         gs = [norm(t) for t, pol in guards(un[0]) if pol]
-        ctx.check(gs == [cond], 'SINK', f"{fi.qualname}: leftover recorded when `{cond}`",
-                  detail_bad=f"condition is {gs}", key=f"SINK|{fi.qualname}|cond")
+        # positive evidence: an extra condition that excludes the single-match case
+        extra = [g for g in gs if g not in (cond,) and g in ('i != 0', 'i > 0', 'i')]
+        ctx.tri(gs == [cond], bool(extra), 'SINK', f"{fi.qualname}: leftover recorded when `{cond}`",
+                detail_bad=f"the leftover is only recorded under {gs}: with a single Twp/Rge it is dropped unflagged",
+                key=f"SINK|{fi.qualname}|cond")
     t = ' '.join(norm(s) for s in walk_local(f1.node) if isinstance(s, ast.stmt))
-    ctx.check('_, _, next_start, _ = matches[i + 1]' in t and 'next_start = str_end' in t, 'SINK',
-              'a chunk ends where the next Twp/Rge starts (or at the end of the text)',
-              detail_bad="next_start computation changed", key="SINK|_segment_twprge_first|next")
+    ctx.shape('_, _, next_start, _ = matches[i + 1]' in t and 'next_start = str_end' in t, 'SINK',
+              'a chunk ends where the next Twp/Rge starts (or at the end of the text)')
     t = ' '.join(norm(s) for s in walk_local(f2.node) if isinstance(s, ast.stmt))
-    ctx.check('_, _, _, previous_end = matches[i - 1]' in t and 'previous_end = 0' in t, 'SINK',
-              'a chunk starts where the previous Twp/Rge ended (or at the start of the text)',
-              detail_bad="previous_end computation changed", key="SINK|_segment_twprge_last|prev")
+    ctx.shape('_, _, _, previous_end = matches[i - 1]' in t and 'previous_end = 0' in t, 'SINK',
+              'a chunk starts where the previous Twp/Rge ended (or at the start of the text)')
 
 
 def _wildcards(sub, out, inside_repeat=False):
@@ -215,15 +215,13 @@ def _preprocess(ctx):
         ctx.ok('SINK', 'sub_scrubber rewrites exactly the matched spans (re.sub with a callback)')
         cb = subs[0].args[0]
         ok = isinstance(cb, ast.Name) and any(f.qualname == f"sub_scrubber.{cb.id}" for f in ctx.repo.funcs.values())
-        ctx.check(ok, 'SINK', 'the replacement is computed from the match object',
-                  detail_bad="replacement is not a callback on the match", key="SINK|sub_scrubber|callback")
+        ctx.shape(ok, 'SINK', 'the replacement is computed from the match object')
         if ok:
             cbf = ctx.repo.func(f"sub_scrubber.{cb.id}")
             rets = [n for n in walk_local(cbf.node) if isinstance(n, ast.Return)]
             pv = flow.provenance(cbf.node, rets[0].value)
-            ctx.check('unpack_twprge' in flow.prov_calls(pv), 'SINK',
-                      'the replacement text is the standardised Twp/Rge of that match',
-                      detail_bad="replacement no longer derives from unpack_twprge(match)", key="SINK|sub_scrubber|unpack")
+            ctx.shape('unpack_twprge' in flow.prov_calls(pv), 'SINK',
+                      'the replacement text is the standardised Twp/Rge of that match')
     elif repl:
         ctx.violation('SINK', 'sub_scrubber rewrites exactly the matched spans',
                       f"`{norm(repl[0])[:70]}` replaces by text: other occurrences of the same characters are rewritten too",
@@ -272,10 +270,10 @@ def _cleanup(ctx):
                       f"while the test is a case-insensitive endswith: an earlier occurrence is cut instead and the "
                       f"text after it is lost", key="SINK|cleanup_desc|cut", where=common.loc(cd, searching[0]))
     else:
-        ctx.check(test_lower and by_pos, 'SINK', 'cleanup_desc cuts a trailing connector by position',
-                  detail_bad="culling logic changed", key="SINK|cleanup_desc|cut")
+        ctx.shape(test_lower and by_pos, 'SINK', 'cleanup_desc cuts a trailing connector by position')
     strips = [ctx.fold.eval(c.args[0], {}, cd.module.name) for c in walk_local(cd.node)
               if isinstance(c, ast.Call) and isinstance(c.func, ast.Attribute) and c.func.attr in ('strip', 'lstrip', 'rstrip') and c.args]
     ok = all(isinstance(s, str) and not any(ch.isalnum() for ch in s) for s in strips)
-    ctx.check(ok and strips, 'SINK', 'cleanup_desc strips only punctuation and whitespace',
-              detail_bad=f"strip sets {strips} contain letters/digits", key="SINK|cleanup_desc|strip")
+    ctx.tri(ok and bool(strips), bool(strips) and not ok, 'SINK', 'cleanup_desc strips only punctuation and whitespace',
+            detail_bad=f"strip sets {strips} contain letters/digits: words are eaten from the description",
+            key="SINK|cleanup_desc|strip")
